@@ -149,8 +149,6 @@ def parse_observable(data, _valid_refs=None, allow_custom=False, interoperabilit
     except RecursionError:
         raise ValueError("Observable content is nested too deeply.")
 
-    obj['_valid_refs'] = _valid_refs or []
-
     if not version:
         version = detect_spec_version(obj)
 
@@ -165,6 +163,12 @@ def parse_observable(data, _valid_refs=None, allow_custom=False, interoperabilit
             "Can't parse unknown observable type '%s'! For custom observables, "
             "use the CustomObservable decorator." % obj['type'],
         )
+
+    if '_valid_refs' in obj:
+        # the reference scope is the caller's to give, see dict_to_stix2()
+        raise ExtraPropertiesError(obj_class, ['_valid_refs'])
+
+    obj['_valid_refs'] = _valid_refs or []
 
     if not allow_custom and 'custom_properties' in obj:
         # see dict_to_stix2()
